@@ -1150,7 +1150,8 @@ def _selected_distros_memoized(
             whole = tuple(h) * k
             yield whole, 1, 1
         else:
-            this_total = h.total**n
+            # Where no outcome has a non-zero count, every roll has a zero numerator
+            this_total = h.total**n or 1
             this_outcome = max(h) if from_right else min(h)
 
             next_h = type(h)(
